@@ -14,7 +14,8 @@ CONSTANTS MaxRuns, Enabled, Shard, NShards
 Kinds == {"cls", "fn", "ap"}
 KindSeq == <<"cls", "fn", "ap">>
 \* A2 = A plus one trailing, undescribed parameter: "different" includes "one is a strict prefix of the other"
-Ifaces == {"A", "A2", "B", "C"}
+\* D = a required (default-less) parameter of a non-builtin type followed by a defaulted one
+Ifaces == {"A", "A2", "B", "C", "D"}
 Arounds == {"none", "both"}
 Present == [iface : Ifaces, around : Arounds, rev : {0}]
 FileStates == {"missing", "empty"} \cup {"present"}           \* abstract tag; the record lives in `files`
